@@ -709,6 +709,14 @@ struct VecTarget
         {
             if (is_buf) break;
             c.site("a_vec_swap");
+            if (o.a[3] % 5 == 0)
+            { // both arguments name the same object: an exchange with itself changes nothing
+                int const w = (int)(o.a[2] & 1);
+                a_vec_swap(box[w].v, box[w].v);
+                c.st.add("probe.swap_with_itself");
+                check_all("a_vec_swap");
+                break;
+            }
             a_vec_swap(box[0].v, box[1].v);
             std::swap(box[0].M, box[1].M); std::swap(box[0].z, box[1].z);
             check_all("a_vec_swap");
